@@ -58,6 +58,7 @@ EvalV(ve, env, w) ==
     [] ve.k = "gets" -> [v |-> Get(w, env, "sv"), w |-> w]              \* get() with get := func() int { return s.Get() }
     \* pwrap(n) with pwrap := func(x int) int { return pscale(x) } and pscale a package-level function VARIABLE
     \* (initially x + 1000, after `setp` x * 100): read when the call is evaluated
+    [] ve.k = "qv"   -> [v |-> Get(w, env, "qv"), w |-> w]               \* rt.Level
     [] ve.k = "pv"   -> [v |-> IF Get(w, env, "pv") = 0 THEN Get(w, env, ve.n) + 1000 ELSE Get(w, env, ve.n) * 100, w |-> w]
     \* a fresh object per evaluation: &box{v: e}; the consumer reads its field and then mutates the object
     [] ve.k = "fresh" -> EvalV(ve.e, env, w)
@@ -67,6 +68,8 @@ EvalV(ve, env, w) ==
     [] ve.k = "unn"  -> [v |-> 7, w |-> w]                               \* unn(n) with unn := func(int) int { return seven() } (unnamed parameter)
     [] ve.k = "perr" -> [v |-> 0, w |-> w]                               \* b2i(ge(n) == nil) with ge := func(x int) error { return mkErr(x) }, mkErr returning (*myErr)(nil): a non-nil interface
     [] ve.k = "vari" -> [v |-> 2, w |-> w]                               \* gv(n, n) with gv := func(xs ...int) int { return count(xs) }
+    [] ve.k = "swp"  -> [v |-> 1 - Get(w, env, ve.n), w |-> w]           \* swp(n, 1) with swp := func(x, y int) int { return sub2(y, x) } (arguments permuted)
+    [] ve.k = "dup"  -> [v |-> 0, w |-> w]                               \* dup(n, 1) with dup := func(x, y int) int { return sub2(x, x) } (argument repeated)
     [] ve.k = "ln"   -> [v |-> 3, w |-> w]                               \* ln("abc") with ln := func(x string) int { return len(x) }
     [] ve.k = "cnv"  -> [v |-> Get(w, env, ve.n), w |-> w]               \* cnv(int64(n)) with cnv := func(x int64) int { return int(x) }
     [] ve.k = "neg" -> LET r == EvalV(ve.e, env, w) IN [v |-> 0 - r.v, w |-> r.w]
@@ -88,15 +91,16 @@ Heap0 == [s |-> [cells |-> <<10, 20, 30, 0>>, len |-> 3], arr |-> <<10, 20, 30>>
 Spawn(w, g, a, b) ==
   LET c1 == Alloc(w, a) c2 == Alloc(c1.w, b)
       c3 == Alloc(c2.w, 0 - 1) c4 == Alloc(c3.w, 0 - 1) c5 == Alloc(c4.w, 0 - 7)
-      c6 == Alloc(c5.w, 7) c7 == Alloc(c6.w, 0) c8 == Alloc(c7.w, 0)
+      c6 == Alloc(c5.w, 7) c7 == Alloc(c6.w, 0) c8 == Alloc(c7.w, 0) c9 == Alloc(c8.w, 0)
       \* kk, vv: function-level variables assigned by `=` range loops; k, v denote the key / value
       \* variable of the innermost range loop (a cell holding -7 when there is none)
       \* sv: the field v of the struct the pointer variable s points to (s := &box{v: 7}; `sets`: s = &box{v: 50})
       \* cv: which function the function variable cv holds (0: func() bool { return r.T(id) }, 1: func() bool { return false })
       env == [a |-> c1.id, b |-> c2.id, kk |-> c3.id, vv |-> c4.id, k |-> c5.id, v |-> c5.id, none |-> c5.id,
-              sv |-> c6.id, cv |-> c7.id, pv |-> c8.id] IN   \* pv: which function the PACKAGE-LEVEL function variable holds
+              sv |-> c6.id, cv |-> c7.id, pv |-> c8.id,      \* pv: which function the PACKAGE-LEVEL function variable holds
+              qv |-> c9.id] IN                               \* qv: the variable rt.Level of ANOTHER package (a qualified identifier)
   [id |-> Len(w.cos) + 1,
-   w  |-> [c8.w EXCEPT !.cos = Append(@, [k |-> <<[t |-> "seq", ss |-> w.table[g], env |-> env]>>,
+   w  |-> [c9.w EXCEPT !.cos = Append(@, [k |-> <<[t |-> "seq", ss |-> w.table[g], env |-> env]>>,
                                           cur |-> Zero, done |-> FALSE, penv |-> env, heap |-> Heap0, defers |-> <<>>])]]
 
 \* ---------------------------------------------------------------- control stack helpers
@@ -324,6 +328,7 @@ Run(i, w) ==
       [] s.k = "effx"  -> LET e == EvalV(s.v, env, w) IN           \* r.E(id, <expr>, 0): observes the value of an expression
                           IF Panicked(e.w) THEN [st |-> "panic", w |-> e.w]
                           ELSE Run(i, SetK(Log(e.w, <<"e", s.id, e.v, 0>>), i, k1))
+      [] s.k = "incq"  -> Run(i, SetK(Set(w, c.penv, "qv", Get(w, c.penv, "qv") + 10), i, k1))   \* rt.Level += 10
       [] s.k = "setcv" -> Run(i, SetK(Set(w, c.penv, "cv", 1), i, k1))   \* cv = func() bool { return false }
       [] s.k = "setp"  -> Run(i, SetK(Set(w, c.penv, "pv", 1), i, k1))   \* pscale = func(x int) int { return x * 100 }
       [] s.k = "sets"  -> Run(i, SetK(Set(w, c.penv, "sv", 50), i, k1))  \* s = &box{v: 50}
